@@ -64,10 +64,14 @@ class VTime:
     def __init__(self):
         self.manual = 0.0
         self.loop = None
+        # time.time() is a wall clock: nothing relates it to loop.time().  C20 sets a large offset
+        # (a power of two, so that the dyadic virtual times stay exact) - code that feeds one
+        # clock's value to the other then shows.
+        self.offset = 0.0
 
     def time(self):
         if self.loop is not None:
-            return self.loop.time()
+            return self.offset + self.loop.time()
         return self.manual
 
 
